@@ -89,6 +89,47 @@ theorem proj1_obj (b : String) (k : Nat) (f : String) (kvs : List (String × J))
     proj1 ⟨b, k+1, 0⟩ f (.obj kvs) = .obj (kvs.map fun kv => (kv.1, proj1 ⟨b, 0, k⟩ f kv.2)) := by
   simp [proj1, atBase, mapArr, mapObj]
 
+/-- no field along the path (starting at type `t`) is itself a typed map — the
+compiler's "invalid projection through nested maps" rule -/
+def NoMapFields (st : StructTable) : Ty → List String → Prop
+  | _, [] => True
+  | t, f :: r =>
+    (∀ ft, fieldTy st t.base f = some ft → ft.mapDim = 0) ∧ NoMapFields st (projTy1 st t f) r
+
+theorem projTy1_map (st : StructTable) (b : String) (k : Nat) (f : String)
+    (h : ∀ ft, fieldTy st b f = some ft → ft.mapDim = 0) :
+    projTy1 st ⟨b, k+1, 0⟩ f =
+        ⟨(projTy1 st ⟨b, 0, k⟩ f).base, (projTy1 st ⟨b, 0, k⟩ f).arrDim + 1, 0⟩ ∧
+    projTy1 st ⟨b, 0, k⟩ f =
+        ⟨(projTy1 st ⟨b, 0, k⟩ f).base, 0, (projTy1 st ⟨b, 0, k⟩ f).arrDim⟩ := by
+  unfold projTy1
+  cases hf : fieldTy st b f with
+  | none => simp
+  | some ft =>
+    have := h ft hf
+    simp [this]
+    omega
+
+theorem projPath_obj (st : StructTable) (path : List String) :
+    ∀ (b : String) (k : Nat) (kvs : List (String × J)), NoMapFields st ⟨b, 0, k⟩ path →
+      projPath st ⟨b, k+1, 0⟩ path (.obj kvs)
+        = .obj (kvs.map fun kv => (kv.1, projPath st ⟨b, 0, k⟩ path kv.2)) := by
+  induction path with
+  | nil => intro b k kvs _; simp [projPath]
+  | cons f r ih =>
+    intro b k kvs h
+    obtain ⟨h1, h2⟩ := h
+    obtain ⟨e1, e2⟩ := projTy1_map st b k f h1
+    simp only [projPath]
+    rw [proj1_obj, e1]
+    rw [e2] at h2
+    rw [ih _ _ _ h2, List.map_map]
+    congr 1
+    apply List.map_congr_left
+    intro kv _
+    simp only [Function.comp_apply]
+    rw [← e2]
+
 /-- the run-time (element by element) formulation agrees with the specification's -/
 theorem resolveArr_eq (f : J → J) (n : Nat) (v : J) : resolveArr f n v = mapArr n f v := by
   induction n generalizing v with
